@@ -28,6 +28,13 @@ bound by ``let <name> := fun ... => ... in`` at the head of every definition tha
 uses them -- no new top-level name, no new file, and the text of a definition from
 which a helper was extracted differs from the old one by beta/zeta only (class Helper).
 
+Normalisations (so that equivalent spellings give the same text): a local that is only a
+name for an attribute whose binding is fixed at construction is replaced by the
+attribute (inline_attribute_names: hoisted attribute reads, aliases of the objects held
+by self -- the alias and the attribute are the same object, so this is exact also for
+what is done THROUGH the alias); the parameters of a helper whose annotation is outside
+the annotation language take the typed view of the arguments at its calls.
+
 Objects held by an object (``self.header_table``): the field is a nested record;
 a mutating call on it returns its new state, which is stored back into ``self``
 also when the call raised (``nbind`` of Prelude/PyExtra.v); a property is its
@@ -568,8 +575,8 @@ class Tr:
             m = ci.methods.get(f.attr) if ci else None
         if m is None:
             return None
-        if m.helper is not None:
-            m.helper.ensure()
+        if m.helper is not None and None not in m.ptys:
+            m.helper.ensure()        # (else at the call, once the types of the arguments are known: call_args)
         return m, text, setter, kind
 
     def call_args(self, m, call, env):
@@ -591,6 +598,13 @@ class Tr:
                 a = m.defaults.get(m.pnames[i])
                 if a is None:
                     bad(call, "call arity")
+            if pt is None:
+                # view: a parameter of a helper whose annotation says nothing usable takes the typed view of what
+                # it is given (the helper is only reached from translated code: its callers fix the view)
+                b, t, ty = self.E(a, env)
+                if not is_view(ty):
+                    bad(a, "argument for a parameter of unknown type")
+                m.ptys[i] = pt = view(ty[1])
             if pt == "bool" and isinstance(a, ast.Name) and env.get(a.id) == T_FLAG:
                 # view: the callee only ever tests this parameter (`not p`, `if p`), so that True / False /
                 # None can be passed as their truthiness
@@ -603,6 +617,8 @@ class Tr:
                 bad(a, f"argument of type {ty} for a parameter of type {pt}")
             bs += b
             ts.append(f"({t})")
+        if m.helper is not None:
+            m.helper.ensure()
         return bs, ts
 
     def call_text(self, m, recv, ts):
@@ -1728,12 +1744,17 @@ class Tr:
             pat = _tuple(vars_)
             binder = _binder(vars_)
             env0 = env
+            grown = {}       # lists that are [] before the loop: the element type the body appends
 
             def nxt(e):
                 # the next iteration starts with the variables as this one leaves them: same types
                 for v in vars_:
                     a, b_ = env0.get(v), e.get(v)
-                    if v == "self" or a == b_ or a == ("list", None) or (is_view(a) and is_view(b_) and a[1] == b_[1]):
+                    if a == ("list", None) and isinstance(b_, tuple) and b_[0] == "list":
+                        if grown.setdefault(v, b_) != b_:
+                            bad(s, f"the loop body gives the list {v} two element types")
+                        continue
+                    if v == "self" or a == b_ or (is_view(a) and is_view(b_) and a[1] == b_[1]):
                         continue
                     bad(s, f"the loop body changes the type of {v} from {a} to {b_}")
                 return f"Next {pat}"
@@ -1764,6 +1785,9 @@ class Tr:
                 self.loop.pop()
                 self.loopvars.pop()
                 head = f"for_each ({it}) (fun {elt_binder} {binder} =>\n{body}) {pat}"
+            if grown:
+                env = dict(env)
+                env.update(grown)
             after = cont(env)
             if self.rw():
                 return (f"match {head} with\n| Done {pat} =>\n{after}\n| Returned r_ {pat} => (Ok r_, self)\n"
@@ -2021,6 +2045,72 @@ def mutates_self_obj(fd, cls, rw_names, classes):
     return False
 
 
+CONST_BINDINGS = {}     # class -> attributes that nothing in the package stores into, outside __init__ (set by main)
+
+
+def constant_bindings(trees):
+    """class -> the attributes of its instances (as listed in CLASSES) that no statement of the package
+    assigns, augments or deletes outside the __init__ of that class: their binding is fixed at construction"""
+    stored = set()
+    for tree in trees.values():
+        for n in tree.body:
+            if not isinstance(n, ast.ClassDef):
+                fdefs = [(None, n)]
+            else:
+                fdefs = [(n.name, x) for x in n.body]
+            for cname, fdef in fdefs:
+                for x in ast.walk(fdef):
+                    if isinstance(x, ast.Attribute) and isinstance(x.ctx, (ast.Store, ast.Del)):
+                        init_of_own = (isinstance(fdef, ast.FunctionDef) and fdef.name == "__init__" and cname
+                                       and isinstance(x.value, ast.Name) and x.value.id == "self")
+                        stored.add((None, x.attr) if not init_of_own else ("init:" + cname, x.attr))
+                    if isinstance(x, ast.Call) and isinstance(x.func, ast.Name) and x.func.id in ("setattr", "delattr"):
+                        stored.add((None, "*"))
+    if (None, "*") in stored:
+        return {}
+    return {c: {a for a in CLASSES[c][1] if (None, a) not in stored} for c in CLASSES}
+
+
+def inline_attribute_names(fd, cls):
+    """NORMALISATION.  `x = self.a`, a top-level statement of the body, x assigned nowhere else and read only in
+    the statements after it, a an attribute whose binding is fixed at construction (CONST_BINDINGS): x is
+    another name for self.a -- the same object, whatever is done to it or through it -- and is replaced by
+    it.  (Hoisting an attribute into a local and not doing so then give the same text.)"""
+    consts = CONST_BINDINGS.get(cls, set())
+    changed = True
+    while changed:
+        changed = False
+        for i, st in enumerate(fd.body):
+            if not (isinstance(st, ast.Assign) and len(st.targets) == 1 and isinstance(st.targets[0], ast.Name)
+                    and isinstance(st.value, ast.Attribute) and isinstance(st.value.value, ast.Name)
+                    and st.value.value.id == "self" and st.value.attr in consts):
+                continue
+            x = st.targets[0].id
+            if x == "self" or x in [a.arg for a in fd.args.args]:
+                continue
+            stores = [n for n in ast.walk(fd) if isinstance(n, ast.Name) and n.id == x and not isinstance(n.ctx, ast.Load)]
+            before = [n for s_ in fd.body[:i + 1] for n in ast.walk(s_) if isinstance(n, ast.Name) and n.id == x
+                      and isinstance(n.ctx, ast.Load)]
+            # (a nested scope that binds the same name would hide it)
+            shadow = [n for n in ast.walk(fd) if (isinstance(n, ast.arg) and n.arg == x)
+                      or (isinstance(n, ast.FunctionDef) and n is not fd)]
+            if len(stores) != 1 or before or shadow:
+                continue
+            attr = st.value
+
+            class _Sub(ast.NodeTransformer):
+                def visit_Name(self_, node):
+                    if node.id == x and isinstance(node.ctx, ast.Load):
+                        return ast.copy_location(ast.Attribute(value=ast.Name(id="self", ctx=ast.Load()),
+                                                               attr=attr.attr, ctx=ast.Load()), node)
+                    return node
+            rest = [_Sub().visit(s_) for s_ in fd.body[i + 1:]]
+            fd.body[:] = fd.body[:i] + rest
+            ast.fix_missing_locations(fd)
+            changed = True
+            break
+
+
 def rename_reserved(fd):
     """local names that are Coq keywords get a trailing underscore"""
     names = {x.id for x in ast.walk(fd) if isinstance(x, ast.Name)} | {a.arg for a in fd.args.args}
@@ -2035,8 +2125,9 @@ def rename_reserved(fd):
             x.arg += "_"
 
 
-def signature(fd, cls):
-    """parameter names, types and constant defaults of a function or method (without self)"""
+def signature(fd, cls, lenient=False):
+    """parameter names, types and constant defaults of a function or method (without self); lenient: None for
+    the type of a parameter whose annotation is not in the language (to be taken from the calls)"""
     args = fd.args.args[1:] if cls else fd.args.args
     if fd.args.vararg or fd.args.kwarg or fd.args.kwonlyargs or fd.args.posonlyargs or fd.args.kw_defaults:
         raise Unsupported("parameter form")
@@ -2045,7 +2136,14 @@ def signature(fd, cls):
         if not isinstance(d, ast.Constant):
             raise Unsupported("default value")
         defaults[a.arg] = d
-    return [a.arg for a in args], [param_type(fd, cls, a) for a in args], defaults
+    def pty(a):
+        try:
+            return param_type(fd, cls, a)
+        except Unsupported:
+            if lenient and a.annotation is not None:
+                return None
+            raise
+    return [a.arg for a in args], [pty(a) for a in args], defaults
 
 
 def param_type(fd, cls, a):
@@ -2160,7 +2258,14 @@ def translate_function(fd, cls, cname, rw, consts, methods, funs, classes=None, 
     if fd.args.vararg or fd.args.kwarg or fd.args.kwonlyargs:
         raise Unsupported("parameter form")
     rename_reserved(fd)
-    params = [(a.arg, param_type(fd, cls, a)) for a in args]
+    if cls:
+        inline_attribute_names(fd, cls)
+    if helper is not None and helper.meth is not None:
+        if None in helper.meth.ptys:
+            raise Unsupported("a parameter whose type neither its annotation nor a call tells")
+        params = [(a.arg, t) for a, t in zip(args, helper.meth.ptys)]
+    else:
+        params = [(a.arg, param_type(fd, cls, a)) for a in args]
     rt = VIEW_RETURNS.get((cls, fd.name)) or ann(fd.returns, ret=True)
     fn = Fn(fd.name, cls, rw, params, rt, consts, methods, funs, classes, fd, bytearray_funs)
     fn.struct_ok = struct_ok
@@ -2404,6 +2509,8 @@ def main():
                                            "_decode_literal_index", "_decode_literal"}),
                      "Encoder": ("hpack", {"header_table_size", "encode", "add", "_encode_indexed", "_encode_literal",
                                            "_encode_indexed_literal", "_encode_table_size_change"})}
+    CONST_BINDINGS.clear()
+    CONST_BINDINGS.update(constant_bindings(trees))
     classes = {c: ClsInfo() for c in CLASSES}
     mfuns = {"hpack": {}, "table": funs, "huffman": {}, "huffman_table": {}}
     tmeth = {}
@@ -2457,7 +2564,7 @@ def main():
                 continue
             h = Helper(f"{mod}.{cls}.{fd.name}", cls, fd, f"{cls}_{fd.name}")
             try:
-                pn, pt, df = signature(fd, cls)
+                pn, pt, df = signature(fd, cls, lenient=True)
                 m = Meth(h.local, False, pt, ann(fd.returns, ret=True), pn, defaults=df)
                 m.truthy = truthy_only(fd, methods)
             except Unsupported as e:
@@ -2545,8 +2652,10 @@ def main():
             pass
     items = [("table.table_entry_size", tes)]
     for nm in ("_shrink", "add", "get_by_index", "search", "maxsize"):
+        if nm in tmeth:
+            tmeth[nm].ok = False      # until it is translated: its callers are refused rather than left dangling
         items.append((f"table.HeaderTable.{nm}",
-                      fun(trees["table"], nm, "HeaderTable", coqname[nm], nm in rw, tmeth)))
+                      fun(trees["table"], nm, "HeaderTable", coqname[nm], nm in rw, tmeth), tmeth.get(nm)))
     emit("GTable.v", items, imp)
 
     for nm, (fd, m) in helper_methods("HuffmanEncoder", hmeth).items():
